@@ -303,3 +303,20 @@ Proof.
   intros p q HR Vp Vq. destruct (equiv_never_raises_valid p q Vp Vq) as [fuel [b Hb]].
   exists fuel. intro k. rewrite (Hb k). rewrite (orule_recognised repaired (fuel + k) p q b HR (Hb k)). reflexivity.
 Qed.
+
+(* ------------------------------------------------------------------ *)
+(* absorption is NOT recognised through the whole pipeline on the current
+   code (known finding C09-absorption-qualified-operand):
+   [a:x = 1] REPEATS 2 TIMES   vs   A OR (A AND [c:z = 3])                *)
+
+Definition w_abs_atom (t : string) (k : string) (z : Z) : oexpr0 :=
+  Obs0 (Atom0 (mkAtom (u t) [SKey (u k)] OpEq false (KP (PInt z)))).
+Definition w_abs_A : oexpr0 := OQual0 (w_abs_atom "a" "x" 1) (QRepeat 2).
+Definition w_abs_B : oexpr0 := w_abs_atom "c" "z" 3.
+
+Lemma absorption_qualified_whole_pipeline : equiv repaired 8 w_abs_A (OOr0 [w_abs_A; OAnd0 [w_abs_A; w_abs_B]]) = Ok false.
+Proof. vm_compute. reflexivity. Qed.
+
+Lemma absorption_unqualified_whole_pipeline :
+  equiv repaired 8 (w_abs_atom "a" "x" 1) (OOr0 [w_abs_atom "a" "x" 1; OAnd0 [w_abs_atom "a" "x" 1; w_abs_B]]) = Ok true.
+Proof. vm_compute. reflexivity. Qed.
